@@ -763,13 +763,27 @@ func (env *LEnv) New(typ *LVal, args *LVal) *LVal {
 	if args.Type != LSExpr {
 		return env.Errorf("second argument is not a list: %v", GetType(args))
 	}
-	tname := typ.Cells[0].Cells[0]
-	ctor := typ.Cells[0].Cells[1]
+	// A typedef made by deftype wraps a (name constructor) pair, but the
+	// typedef type is itself an ordinary typedef, so a program can build a
+	// value with this tag around anything: (new (new lisp:typedef ...)).
+	tname, ctor, ok := typedefParts(typ)
+	if !ok {
+		return env.Errorf("first argument is not a well-formed typedef")
+	}
 	v := env.FunCall(ctor, args)
 	if v.Type == LError {
 		return v
 	}
 	return env.TaggedValue(tname, v)
+}
+
+// typedefParts returns the (name constructor) pair a typedef-tagged value
+// wraps, and false when the value wraps anything else.
+func typedefParts(typ *LVal) (name, ctor *LVal, ok bool) {
+	if len(typ.Cells) != 1 || typ.Cells[0].Type != LSExpr || len(typ.Cells[0].Cells) != 2 {
+		return nil, nil, false
+	}
+	return typ.Cells[0].Cells[0], typ.Cells[0].Cells[1], true
 }
 
 // Lambda returns a new Lambda with fun.Env and fun.Package set automatically.
